@@ -119,17 +119,21 @@ corollary("C12.inv.grid_pixels_2d_slim_from", props=["C12"],
 
 # For the two truncating conversions the statement is made about an ARBITRARY entry k and the pixel (i, j) whose open
 # square contains it (k, i, j are free variables of the corollary = universally quantified): the goals are then ground.
-# The first conjuncts restate "the translated point lies in the translated square" -- the hypothesis of the callee's
-# postcondition at origin o + d -- so that the proof stays on e-matching.
+# Only entry k of the translated grid matters, so S2 is related to S at entry k alone (any two grids whose k-th points
+# differ by d) -- more general than a fully translated copy, and no quantified hypothesis is needed.
+# The first conjuncts of the conclusions restate "the translated point lies in the translated square" -- the hypothesis
+# of the callee's postcondition at origin o + d.
 _CY2 = "((o[0] + d[0]) + ((H - 1) / 2 - i) * sy)"
 _CX2 = "((o[1] + d[1]) + (j - (W - 1) / 2) * sx)"
 _INY2 = _CY2 + " - sy / 2 < S2[k, 0] and S2[k, 0] < " + _CY2 + " + sy / 2"
 _INX2 = _CX2 + " - sx / 2 < S2[k, 1] and S2[k, 1] < " + _CX2 + " + sx / 2"
 _KIJ = {"k": "int", "i": "int", "j": "int"}
-_KIJ_REQ = ["0 <= k", "k < N", "0 <= i", "i < H", "0 <= j", "j < W"]
+_S2K = ["S.shape[1] == 2", "S2.shape[0] == S.shape[0]", "S2.shape[1] == 2",
+        "0 <= k", "k < N", "0 <= i", "i < H", "0 <= j", "j < W",
+        "S2[k, 0] == S[k, 0] + d[0]", "S2[k, 1] == S[k, 1] + d[1]"]
 
 corollary("C12.inv.grid_pixel_centres_2d_slim_from", props=["C12"],
-          vars={**_GV, **_KIJ}, let=_GL, requires=POS + _S2 + _KIJ_REQ,
+          vars={**_GV, **_KIJ}, let=_GL, requires=POS + _S2K,
           calls=_both(G + "grid_pixel_centres_2d_slim_from"),
           ensures=["r2.shape[0] == r1.shape[0]",
                    "implies(" + _INY + ", (" + _INY2 + ") and r2[k, 0] == r1[k, 0] and r1[k, 0] == i)",
@@ -137,7 +141,7 @@ corollary("C12.inv.grid_pixel_centres_2d_slim_from", props=["C12"],
           sentence="the pixel (y,x) indices of correspondingly translated points are unchanged (points inside a pixel square of the extent)")
 
 corollary("C12.inv.grid_pixel_indexes_2d_slim_from", props=["C12"],
-          vars={**_GV, **_KIJ}, let=_GL, requires=POS + _S2 + _KIJ_REQ,
+          vars={**_GV, **_KIJ}, let=_GL, requires=POS + _S2K,
           calls=_both(G + "grid_pixel_indexes_2d_slim_from"),
           ensures=["r2.shape[0] == r1.shape[0]",
                    "implies((" + _INY + ") and (" + _INX + "),"
